@@ -29,7 +29,7 @@ FILES = {"DateTime": "datetime.py", "Date": "date.py", "Time": "time.py", "Forma
 NATIVE = {"datetime.datetime": _dt.datetime, "datetime": _dt.datetime, "datetime.date": _dt.date, "date": _dt.date,
           "datetime.time": _dt.time, "time": _dt.time}
 # (class, method) whose source text the hand model in Model/DropIn.v transcribes
-PINNED = [("DateTime", "date"), ("DateTime", "time"), ("DateTime", "astimezone"), ("DateTime", "__str__"), ("DateTime", "__sub__"),
+PINNED = [("DateTime", "date"), ("DateTime", "time"), ("DateTime", "timetz"), ("DateTime", "astimezone"), ("DateTime", "__str__"), ("DateTime", "__sub__"),
           ("DateTime", "__rsub__"), ("DateTime", "__add__"), ("DateTime", "__radd__"), ("DateTime", "replace"), ("DateTime", "_cmp"),
           ("DateTime", "fromtimestamp"), ("DateTime", "utcfromtimestamp"), ("DateTime", "fromordinal"), ("DateTime", "combine"),
           ("DateTime", "strptime"), ("DateTime", "diff"), ("DateTime", "instance"), ("DateTime", "create"),
@@ -176,6 +176,11 @@ def gen_classes(ctx):
     rows = []
     for c, m in PINNED:
         node = own[c].get(m)
+        if node is None:
+            # the override is gone: digest 0 never equals a committed pin (pins_ok fails closed) while the table above, which now resolves the
+            # name to the native class, still generates, so the run goes on and looks for a concrete failing input
+            rows.append(f"  ({coq_string(c)}, {coq_string(m)}, 0)")
+            continue
         if not isinstance(node, ast.FunctionDef):
             raise P.Unsupported(f"{c}.{m} is not a plain def any more")
         txt = ast.unparse(node)
